@@ -357,7 +357,13 @@ pub fn kop_usize<A: VC, const K: usize>(st: &mut St<A>, name: &str, t: &mut Toks
         "kmers" => {
             let sd = t.sd();
             let s = slice_of(&st.regs, &sd);
-            let v: Vec<String> = s.kmers::<K>().map(|k| k.bs.to_string()).collect();
+            let items: Vec<Kmer<A, K>> = s.kmers::<K>().collect();
+            let bad = iter_protocol(|| s.kmers::<K>(), &items);
+            if bad != 0 {
+                st.out.push(format!("4294967293 {bad}"));
+                return true;
+            }
+            let v: Vec<String> = items.iter().map(|k| k.bs.to_string()).collect();
             let mut o = vec![v.len().to_string()];
             o.extend(v);
             st.out.push(o.join(" "));
@@ -499,16 +505,40 @@ impl KD for Dna {
             u64: [1,2,3,8,16,31,32] ; u128: [1,2,3,31,32,33,40,63,64])
     }
     fn xlate(m: usize, s: &SeqSlice<Self>) -> Option<Vec<String>> {
+        // translation pipelines as users write them: plain map, reading frames through
+        // skip/step_by, and the k-th window through nth - all must give the triplet's amino acid
+        let tr = |c: &SeqSlice<Self>| STANDARD.to_amino(c).to_bits();
         Some(match m {
-            0 => s
-                .windows(3)
-                .map(|c| STANDARD.to_amino(c).to_bits().to_string())
-                .collect(),
-            1 => s
-                .chunks(3)
-                .map(|c| STANDARD.to_amino(c).to_bits().to_string())
-                .collect(),
-            _ => vec![STANDARD.to_amino(s).to_bits().to_string()],
+            0 | 1 => {
+                let plain: Vec<u8> = if m == 0 {
+                    s.windows(3).map(tr).collect()
+                } else {
+                    s.chunks(3).map(tr).collect()
+                };
+                // reading frames: skip/step_by/nth applied to the window iterator itself
+                let wins: Vec<&SeqSlice<Self>> = if m == 0 { s.windows(3).collect() } else { s.chunks(3).collect() };
+                let mut bad = if m == 0 {
+                    iter_protocol(|| s.windows(3), &wins)
+                } else {
+                    iter_protocol(|| s.chunks(3), &wins)
+                };
+                for f in 0..3usize {
+                    let got: Vec<u8> = if m == 0 {
+                        s.windows(3).skip(f).step_by(3).map(tr).collect()
+                    } else {
+                        s.chunks(3).skip(f).step_by(3).map(tr).collect()
+                    };
+                    let want: Vec<u8> = plain.iter().copied().skip(f).step_by(3).collect();
+                    if got != want {
+                        bad = 7;
+                    }
+                }
+                if bad != 0 {
+                    return Some(vec!["4294967293".to_string(), bad.to_string()]);
+                }
+                plain.iter().map(|a| a.to_string()).collect()
+            }
+            _ => vec![tr(s).to_string()],
         })
     }
     fn conv(s: &SeqSlice<Self>, t: usize) -> Option<Vec<String>> {
@@ -607,6 +637,44 @@ impl KD for degenerate::Dna {
             us: [1,2,3,7,8,9,31,32,33,63,64] ;
             u64: [1,2,63,64] ; u128: [1,2,64,65,127,128])
     }
+}
+
+/// The items an iterator yields through `next()` must also be what the rest of the Iterator
+/// protocol reports: nth, skip, step_by, count, last, size_hint (an override of any of them that
+/// disagrees breaks "the iterator enumerates exactly these items").  Returns 0 if consistent,
+/// otherwise a code naming the first inconsistent method.
+fn iter_protocol<T: PartialEq, I: Iterator<Item = T>>(mk: impl Fn() -> I, items: &[T]) -> usize {
+    let n = items.len();
+    if mk().count() != n {
+        return 1;
+    }
+    if mk().last().as_ref() != items.last() {
+        return 2;
+    }
+    let (lo, hi) = mk().size_hint();
+    if lo > n || hi.map_or(false, |h| h < n) {
+        return 3;
+    }
+    for k in [0usize, 1, 2, 3, n / 2, n.saturating_sub(1), n, n + 1] {
+        if mk().nth(k).as_ref() != items.get(k) {
+            return 4;
+        }
+    }
+    // nth twice in a row (state after a jump)
+    let mut it = mk();
+    let a = it.nth(1);
+    let b = it.nth(1);
+    if a.as_ref() != items.get(1) || b.as_ref() != items.get(3) {
+        return 5;
+    }
+    for (sk, st) in [(0usize, 3usize), (1, 3), (2, 3), (1, 2), (n / 2, 1)] {
+        let got: Vec<T> = mk().skip(sk).step_by(st).collect();
+        let want: Vec<&T> = items.iter().skip(sk).step_by(st).collect();
+        if got.len() != want.len() || got.iter().zip(want).any(|(a, b)| a != b) {
+            return 6;
+        }
+    }
+    0
 }
 
 fn ordnum(o: core::cmp::Ordering) -> u8 {
@@ -914,7 +982,14 @@ where
         }
         "codes" => {
             let sd = t.sd();
-            let v = lencodes(slice_of(&st.regs, &sd));
+            let sl = slice_of(&st.regs, &sd);
+            let v = lencodes(sl);
+            let items: Vec<A> = sl.iter().collect();
+            let bad = iter_protocol(|| sl.iter(), &items);
+            if bad != 0 {
+                st.out.push(format!("4294967293 {bad}"));
+                return;
+            }
             if sd.ranges.is_empty() {
                 let w: Vec<String> = (&st.regs[sd.reg]).into_iter().map(|x| x.to_bits().to_string()).collect();
                 assert!(w[..] == v[1..], "IntoIterator for &Seq disagrees with SeqSlice::iter");
@@ -924,8 +999,15 @@ where
         "reviter" => {
             let sd = t.sd();
             let s = slice_of(&st.regs, &sd);
+            let items: Vec<A> = s.rev_iter().collect();
+            let bad = iter_protocol(|| s.rev_iter(), &items);
+            if bad != 0 {
+                st.out.push(format!("4294967293 {bad}"));
+                return;
+            }
             st.out.push(
-                s.rev_iter()
+                items
+                    .iter()
                     .map(|x| x.to_bits().to_string())
                     .collect::<Vec<_>>()
                     .join(" "),
@@ -955,6 +1037,15 @@ where
             } else {
                 s.chunks(w).collect()
             };
+            let bad = if name == "windows" {
+                iter_protocol(|| s.windows(w), &items)
+            } else {
+                iter_protocol(|| s.chunks(w), &items)
+            };
+            if bad != 0 {
+                st.out.push(format!("4294967293 {bad}"));
+                return;
+            }
             let mut o = vec![items.len().to_string()];
             for it in items {
                 o.extend(lencodes(it));
